@@ -490,6 +490,11 @@ func (s *State) enterLoop(l *Loop) {
 		_ = safeSpec(func() { s.assume(env.evalBool(c.Expr)) })
 	}
 	lf.Head = s.snapshot()
+	// determinism (C20): the order in which a map is ranged over is arbitrary; a range-over-map loop without a loop contract
+	// (in particular one inside a contract-less helper) has no proved order-independent summary of what it computes
+	if l.MapRange != nil && l.Spec == nil && s.spec != nil {
+		s.oblige1("map-order", "unsummarised-map-range:"+l.Name+"@"+s.eng.pos(l.MinPos), []string{"C20"}, "false", where, "range over a map without a loop contract: its result may depend on the iteration order")
+	}
 	// termination (C19): every loop that is not a range over a slice or map needs a measure; "decreases *" states that
 	// termination is deliberately not claimed (listed as an assumption)
 	if l.RangeIdx == nil && l.MapRange == nil && (l.Spec == nil || l.Spec.Decreases == nil) && s.spec != nil && hasProp(allProps(s.spec), "C19") {
